@@ -111,6 +111,7 @@ func userOptionsWinRule(c *Ctx, r *Report) {
 }
 
 func checkC20(c *Ctx, r *Report) {
+	defer addressOptionsRule(c, r)
 	defer partDisciplineRule(c, r, "R20f")
 	defer userOptionsWinRule(c, r)
 	r.Assumption("strconv.ParseInt implements Go integer literal syntax for base 0 (trusted standard library)")
@@ -652,5 +653,51 @@ func idxConstructors(c *Ctx, r *Report, rule string, skip *ssa.Function) {
 			r.Check(lo, rule, c.FnName(fn), "idxField lower bound", c.Pos(st.Pos()), "construction dominated by idx >= 0", "an index field is built from "+st.Val.Name()+" without a dominating 0 <= idx test: negative indices reach the list accessors")
 			r.Check(hi, rule, c.FnName(fn), "idxField maxIdx cap", c.Pos(st.Pos()), "construction dominated by idx <= opts.maxIdx", "an index field is built from "+st.Val.Name()+" without the MaxIdx cap: one call can grow a list beyond MaxIdx+1 entries")
 		})
+	}
+}
+
+// addressOptionsRule (R20g): the (name, idx) spelling of an address and the dotted spelling classify the name with
+// the same options. parsePathIdx hands the name to the path parser together with the caller's options as they are —
+// separator, MaxIdx, EnableNumKeys, EscapePath each read from the options object, none replaced by a constant or
+// made to depend on idx.
+func addressOptionsRule(c *Ctx, r *Report) {
+	r.Rule("R20g", "parsePathIdx parses the name with the options it was given: every classification argument that reaches parsePath is a field of that options object", 1)
+	ppi := c.Func("", "parsePathIdx")
+	var optsParam *ssa.Parameter
+	for _, p := range ppi.Params {
+		if typeStr(p.Type()) == "*ucfg.options" {
+			optsParam = p
+		}
+	}
+	n := 0
+	for _, ci := range CallsIn(ppi, false) {
+		g := ci.Common().StaticCallee()
+		if g == nil || g.Pkg != c.SSA[""] || !(g.Name() == "parsePath" || g.Name() == "parsePathWithOpts") {
+			continue
+		}
+		n++
+		bad := ""
+		for i, a := range ci.Common().Args {
+			if i == 0 {
+				continue // the name
+			}
+			if a == ssa.Value(optsParam) {
+				continue
+			}
+			ok := false
+			if l, isL := a.(*ssa.UnOp); isL && l.Op == token.MUL {
+				if fa, isFA := l.X.(*ssa.FieldAddr); isFA && fa.X == ssa.Value(optsParam) {
+					ok = true
+				}
+			}
+			if !ok {
+				bad = fmt.Sprintf("argument %d is %s", i, a.String())
+			}
+		}
+		r.Check(bad == "" && optsParam != nil, "R20g", c.FnName(ppi), "name parsed with the caller's options", c.Pos(ci.Pos()), "options handed through unchanged",
+			"parsePathIdx does not parse the name with the caller's options as they are ("+bad+"): the (name, idx) spelling of an address classifies a numeric name differently from the dotted spelling and from the same name without an index — with EnableNumKeys a name like \"5\" is a key for String(\"5\", -1) and an index for String(\"5\", 1)")
+	}
+	if n == 0 {
+		r.add("R20g", c.FnName(ppi), "name parsed with the caller's options", c.Pos(ppi.Pos()), Undecided, true, "parsePathIdx does not call the path parser")
 	}
 }
